@@ -62,9 +62,11 @@ LEVEL = {
              "run lengths and a dynamic window is dropped exactly when its span touches an unvoiced frame or the utterance edge; fill puts NODATA exactly on "
              "unvoiced frames; the banded LDL^T factorisation + forward/backward substitution, as coded, returns c with A c = r for the stored symmetric band "
              "matrix for every length and band width when no pivot vanishes; normal equations with non-negative precisions give the likelihood maximiser. "
-             "Partial: that calcWuwWum assembles exactly W'U^-1 W and W'U^-1 mu is not yet a theorem — it is decided on every run by the oracle, which "
-             "builds the normal-equation residual from the definition over absolute frames (not from the banded code) on the implementation's output; the "
-             "model is bit-identical to the implementation on all executed cases.",
+             "calc_wuw_and_wum assembles exactly the band of W'U^-1 W and the vector W'U^-1 mu for the window matrix defined from scratch, given zero precision "
+             "where a window span leaves the frame range (which is what create arranges; the latent break of F8 is shown harmless there). Not a theorem: positivity "
+             "of the pivots (checked on every executed case) and that create's compacted voiced frames satisfy the edge hypothesis — both are covered on every run by "
+             "the oracle, which builds the normal-equation residual from the definition over absolute frames on the implementation's output; the model is "
+             "bit-identical to the implementation on all executed cases.",
         note="Trusted: Lean kernel; axioms ⊆ {propext, Classical.choice, Quot.sound}; model tied by differential testing (1e-9 relative, bit-identical in "
              "practice); exact-arithmetic semantics; band assembly tested, not proved.",
     ),
@@ -80,7 +82,8 @@ LEVEL = {
     ),
     "C06": dict(
         text="Partial. Theorems: the cepstrum <-> MLSA-coefficient maps are mutually inverse for every alpha; with zero coefficients the Pade cascade is the "
-             "identity in every state; shifting c0 by delta shifts only b0 and scales the filter input by exp(delta). The analytic clause (0.01 neper against "
+             "identity in every state; shifting c0 by delta shifts only b0 and scales the filter input by exp(delta); the cascade is homogeneous in its input, so the "
+             "response scales with exp(c0). The analytic clause (0.01 neper against "
              "sum c_m cos(m w~)) is a bound on the Pade(5) error of a concrete rational function and is decided on every run by the DFT of the implementation's "
              "pulse response through the public Vocoder; the Lean vocoder model is bit-identical to the implementation on all executed runs.",
         note="Trusted: Lean kernel; axioms ⊆ {propext, Classical.choice, Quot.sound}; spectral accuracy is test-level (no complex analysis / IEEE semantics in the theorems).",
